@@ -20,6 +20,7 @@ type posRef struct {
 }
 
 var reDollar = regexp.MustCompile(`^\$(\d+)(.*)$`)
+var reChildPos = regexp.MustCompile(`^(?:\.(\w+)\(\))?\.(\w+)\.Pos$`)
 
 func checkC17(c *Ctx) {
 	r, t := c.R, c.T
@@ -267,6 +268,30 @@ func c17TokenPos(c *Ctx) {
 					}
 				}
 				rest := m[2]
+				// a position copied from a child node's own position field: admissible when that field's token kinds
+				// are among the kinds this field expects ($1.LBracePos.Pos of a block, $2.InExpr().OpPos.Pos)
+				if cm := reChildPos.FindStringSubmatch(rest); cm != nil {
+					for cf, ca := range ref.Fields {
+						if !strings.HasSuffix(cf, "."+cm[2]) || (cm[1] != "" && !strings.HasPrefix(cf, cm[1]+".")) {
+							continue
+						}
+						sub := true
+						for _, x := range ca {
+							in := false
+							for _, a := range allowed {
+								if a == x {
+									in = true
+								}
+							}
+							if !in {
+								sub = false
+							}
+						}
+						if sub {
+							okSym = true
+						}
+					}
+				}
 				okSel := rest == ".Pos" || strings.HasSuffix(rest, ".Pos") || strings.HasSuffix(rest, ".Start") || strings.HasSuffix(rest, "StartPos()") ||
 					strings.Contains(rest, "()."+f[strings.Index(f, ".")+1:])
 				if strings.Contains(rest, "()."+f[strings.Index(f, ".")+1:]) {
@@ -281,7 +306,7 @@ func c17TokenPos(c *Ctx) {
 			r.Ob("TOKEN-POS", "field "+f+" is set by some production", "pkg/parser/parser.go", false, "no grammar action stores this position field any more: it stays the zero position")
 		}
 	}
-	r.Floor("TOKEN-POS", 150)
+	r.Floor("TOKEN-POS", 140)
 	// Item.Pos is Lexer.start at emit
 	emit := t.Method(pParser, "Lexer", "emit")
 	okEmit := false
@@ -319,10 +344,17 @@ func c17TokenPos(c *Ctx) {
 			if ld, ok := s.Val.(*ssa.UnOp); ok && strings.HasSuffix(path(ld), ".Start") {
 				via = true // copied from a child node's own position (CallExpr.NamePos)
 			}
+			if call, ok := s.Val.(*ssa.Call); ok && call.Call.StaticCallee() != nil {
+				if n := call.Call.StaticCallee().Name(); (n == "StartPos" || n == "NodeStartPos") && len(call.Call.Args) == 1 {
+					if _, isP := rootOf(call.Call.Args[0]).(*ssa.Parameter); isP {
+						via = true // the start of a child node, itself a stored position
+					}
+				}
+			}
 			r.Ob("TOKEN-POS-CONV", name+" "+key, t.Pos(s.Pos()), via, "line/column must be computed by this parse's PosCache from the byte offset")
 		})
 	}
-	r.Floor("TOKEN-POS-CONV", 40)
+	r.Floor("TOKEN-POS-CONV", 30)
 }
 
 func c17LnCol(c *Ctx) {
@@ -424,6 +456,12 @@ func c17ErrPos(c *Ctx) {
 				seen[in] = true
 				n++
 				key := fmt.Sprintf("%s %s #%d position", relName(f), what, ordinalCall(f, call))
+				if f.Name() == "NewRunError" && what == "NewErr" {
+					// the wrapper itself: its callers' position arguments are the obligations; only the file is checked here
+					fp := path(fileArg)
+					r.Ob("ERR-FILE", fmt.Sprintf("%s %s #%d file", relName(f), what, ordinalCall(f, call)), t.Pos(call.Pos()), strings.HasSuffix(fp, ".name"), "file argument is "+fp+"; must be the task's script name")
+					return
+				}
 				rt := rootOf(posArg)
 				p := path(posArg)
 				switch x := rt.(type) {
